@@ -39,9 +39,11 @@ def pool():
     from frozendict import frozendict
     P = bridge.P
     return [P.MetaVar(0), P.MetaVar(1), P.EVar(0), P.Symbol('a'), P.neg(P.MetaVar(0)), P.Exists(0, P.EVar(0)),
+            P.Mu(1, P.EVar(0)), P.Mu(0, P.MetaVar(2, positive=(P.SVar(0),))),
             P._and(P.MetaVar(1), P.EVar(1)), P.ESubst(P.MetaVar(1), P.EVar(0), P.EVar(1)), P.MetaVar(2, e_fresh=(P.EVar(0),)),
             P.App(P.Symbol('f'), P.EVar(0)), P.Exists(1, P.EVar(0)), P.Mu(0, P.SVar(0)),
-            P.Instantiate(P.Implies(P.MetaVar(0), P.MetaVar(1)), frozendict({1: P.EVar(0), 0: P.Symbol('a')}))]
+            P.Instantiate(P.Implies(P.MetaVar(0), P.MetaVar(1)), frozendict({1: P.EVar(0), 0: P.Symbol('a')})),
+            P.MetaVar(1, negative=(P.SVar(0),)), P.Mu(0, P.Implies(P.MetaVar(1, negative=(P.SVar(0),)), P.SVar(0)))]
 
 
 LEMMAS = [('imp_refl', 1), ('bot_elim', 1), ('dneg_intro', 1), ('absurd', 2), ('peirce_bot', 1), ('and_l_imp', 2),
